@@ -3,7 +3,7 @@ import time, json
 from .. import common, campaign
 
 CLAUSES = {
-    'C01': ['C01_word', 'C01_text'], 'C02': ['C02_accept', 'C02_final'],
+    'C01': ['C01_word', 'C01_text'], 'C02': ['C02_accept', 'C02_final'], 'C03': ['C03_accepts'],
     'C06': ['C06_add', 'C06_remove', 'C06_replace', 'C06_out'], 'C07': ['C07_ext'],
     'C10': ['C10_frame', 'C10_future'], 'C11': ['C11_obs', 'C11_state'], 'C12': ['C12_reject', 'C12_unique'],
     'C15': ['C15_same', 'C15_noop', 'C15_readchild', 'C15_valframe'], 'C16': ['C16_pure', 'C16_future'], 'C18': ['C18_free', 'C18_same', 'C18_order'],
